@@ -118,6 +118,10 @@ def lockWithTimeout (ev : LockEv) (t : Tmo) (w : World) : LockRes :=
       else if d ≤ tv then .acquired (some (tv - d)) (w.lockTry.afterLock tv d)   -- timeout = elapsed.recompute_timeout(timeout)
       else .timeout (w.lockTry.afterLock tv tv)
 
+/-- leaving the `with lock_with_timeout(lock, timeout)` block after the lock was acquired: `ExitStack` calls `lock.release()`
+    (exactly once, whatever the body did: return, raise).  Nothing is released when the acquisition failed. -/
+def World.lockRelease (w : World) : World := { w with log := .lockRelease :: w.log }
+
 /-! ## TCPNetworkClient -/
 
 /-- `__convert_socket_error`: every ConnectionError becomes ECONNABORTED -/
@@ -138,7 +142,7 @@ def clientRecv {κ : Type} (fl : Flavour) (ri : Tmo) (room : κ → Nat) (next :
       ⟨clientErr (receive fl ri room next cons eof t' sock w').out,
        (receive fl ri room next cons eof t' sock w').cons,
        (receive fl ri room next cons eof t' sock w').eof,
-       (receive fl ri room next cons eof t' sock w').w⟩
+       (receive fl ri room next cons eof t' sock w').w.lockRelease⟩
 
 /-- `__convert_socket_error` on the send side -/
 def clientErrS : Outcome → Outcome
@@ -154,7 +158,8 @@ def clientSend (tr : Transport) (fix : Bool) (iov : Int) (ri : Tmo) (lk : Option
   | some ev =>
     match lockWithTimeout ev t w with
     | .timeout w' => (.timeout, w')
-    | .acquired t' w' => (clientErrS (sendPacket tr fix iov ri chunks t' sock w').1, (sendPacket tr fix iov ri chunks t' sock w').2)
+    | .acquired t' w' =>
+      (clientErrS (sendPacket tr fix iov ri chunks t' sock w').1, (sendPacket tr fix iov ri chunks t' sock w').2.lockRelease)
 
 /-! ## ClientRecvIterator -/
 
@@ -230,7 +235,7 @@ def udpClientRecv (ri : Tmo) (bufsize : Nat) (lk : Option LockEv) (t : Tmo) (soc
   | some ev =>
     match lockWithTimeout ev t w with
     | .timeout w' => ⟨.timeout, .bad, t, sock, w'⟩
-    | .acquired t' w' => dgramRecv ri bufsize t' sock w'
+    | .acquired t' w' => { dgramRecv ri bufsize t' sock w' with w := (dgramRecv ri bufsize t' sock w').w.lockRelease }
 
 /-- `UDPNetworkClient.send_packet(packet, timeout=…)`: `lock_with_timeout(send lock, timeout)`, then one
     `transport.send(datagram, remaining)` -/
@@ -240,6 +245,6 @@ def udpClientSend (ri : Tmo) (data : Bytes) (lk : Option LockEv) (t : Tmo) (sock
   | some ev =>
     match lockWithTimeout ev t w with
     | .timeout w' => ⟨.timeout, .bad, t, sock, w'⟩
-    | .acquired t' w' => dgramSend ri data t' sock w'
+    | .acquired t' w' => { dgramSend ri data t' sock w' with w := (dgramSend ri data t' sock w').w.lockRelease }
 
 end EasyNet
